@@ -126,6 +126,8 @@ func RunSched(p *SchedProg) (violation string, steps int) {
 		return schedStream(p)
 	case "sched-fallback":
 		return schedFallback(p)
+	case "sched-rr":
+		return schedRR(p)
 	case "sched-addr":
 		return schedAddr(p)
 	}
@@ -586,4 +588,91 @@ func schedStream(p *SchedProg) (string, int) {
 	}
 	_ = hdrErr
 	return "", res.Steps
+}
+
+// schedRR: (ROUND_ROBIN bind) a BIND pick is assigned a channel that is not READY and waits; the READY report for
+// that channel, another balancer callback and a second pick run under the scheduler. The waiting pick must get its
+// channel (C09: "handed its assigned channel only once that channel is READY"; C06: "returns promptly after", "does
+// not delay any other call") - whatever the interleaving of its check-then-wait steps with the report.
+func schedRR(p *SchedProg) (string, int) {
+	e, err := newPoolEnv(fmt.Sprintf(`{"channelPool":{"minSize":2,"maxSize":2,"bindPickStrategy":"ROUND_ROBIN"},%s}`, schedMethods), 2, true)
+	if err != nil {
+		return "C17|" + err.Error(), 0
+	}
+	e.bringUpAll()
+	pk := e.readyPickers()
+	if len(pk) == 0 {
+		return "", 0
+	}
+	cur := pk[len(pk)-1]
+	// one BIND tells where the cursor is: the next one goes to the other channel
+	r, err := cur.Pick(balancer.PickInfo{Ctx: ictx(context.Background(), &cmsg{}, &cmsg{Key: "k0"}), FullMethodName: "/bind"})
+	if err != nil {
+		return "C09|setup bind failed: " + err.Error(), 0
+	}
+	first := r.SubConn.(*csc)
+	r.Done(balancer.DoneInfo{})
+	var next *csc
+	e.cc.mu.Lock()
+	for _, sc := range e.cc.all {
+		if sc != first && !sc.refresh {
+			next = sc
+		}
+	}
+	e.cc.mu.Unlock()
+	if next == nil {
+		return "", 0
+	}
+	e.rep(next, connectivity.State([]connectivity.State{connectivity.Connecting, connectivity.TransientFailure, connectivity.Idle}[p.Extra%3]))
+	pk = e.readyPickers()
+	cur = pk[len(pk)-1]
+	s := NewSched()
+	var got balancer.SubConn
+	var gotErr error
+	returned := false
+	ctx, cancel := context.WithTimeout(ictx(context.Background(), &cmsg{}, &cmsg{Key: "k1"}), 3*time.Second)
+	defer cancel()
+	s.Go("bind-pick", func() {
+		x, err := cur.Pick(balancer.PickInfo{Ctx: ctx, FullMethodName: "/bind"})
+		got, gotErr, returned = x.SubConn, err, true
+		if err == nil {
+			x.Done(balancer.DoneInfo{})
+		}
+	})
+	s.Go("ready-report", func() {
+		if (p.Extra/3)%2 == 1 {
+			e.rep(next, connectivity.Connecting)
+		}
+		e.rep(next, connectivity.Ready)
+	})
+	if (p.Extra/6)%2 == 1 {
+		s.Go("other-callback", func() {
+			e.rep(first, connectivity.Ready) // a redundant report: needs the balancer's write lock
+			e.b.ResolverError(fmt.Errorf("x"))
+		})
+	}
+	if (p.Extra/12)%2 == 1 {
+		s.Go("plain-pick", func() {
+			if x, err := cur.Pick(balancer.PickInfo{Ctx: context.Background(), FullMethodName: "/plain"}); err == nil {
+				x.Done(balancer.DoneInfo{})
+			}
+		})
+	}
+	res, v := p.run(s, 600, func() string { return violationOf(e.cc) })
+	p.Trace = s.Trace
+	s.Drain()
+	if v == "" && res.Deadlock == "" && res.Panic == "" && res.Steps < 600 {
+		switch {
+		case !returned:
+			v = "C09,C06|the waiting BIND pick has not returned although every task ran to its end"
+		case gotErr != nil:
+			v = fmt.Sprintf("C09,C06|the BIND pick assigned to a channel that became READY returned %v instead of that channel (context alive: %v)", gotErr, ctx.Err() == nil)
+		case got != balancer.SubConn(next):
+			v = fmt.Sprintf("C09|the second BIND of a two-channel pool was handed %v, the cycle assigns it %v", got, next)
+		}
+	}
+	if v == "" && res.Deadlock != "" {
+		v = "C09,C06|deadlock: " + res.Deadlock
+	}
+	return judgeSched(res, v), res.Steps
 }
